@@ -7,6 +7,7 @@ import SymfcModel.Model.Tables
 import SymfcModel.Lemmas.Batch
 import SymfcModel.Lemmas.Chunk
 import SymfcModel.Lemmas.Design
+import SymfcModel.Lemmas.SpanIndep
 namespace Symfc.C11
 open Symfc
 
@@ -66,5 +67,69 @@ theorem normal_equations_independent_of_batch_sizes (c : Cell) (ods : List Order
 /-- record of the current source: the FC3 reshape guards against a zero batch size, the FC2/FC4 reshapes do not
     (FC4: fewer than 36 stored entries ⇒ `ValueError`, a crash, never a wrong value) -/
 theorem reshape_zero_batch_guards : Gen.chainZeroBatchGuarded = [(2, false), (3, true), (4, false)] := by decide
+
+/-! ### C11.e: the eigen-solver path is irrelevant — everything a user sees depends only on the SPAN
+
+The standard and the "large" (block-divided) eigen-solver paths, re-runs, and different batchings of the projector
+construction return DIFFERENT eigenvector matrices: eigenvectors of the unit eigenspace are only determined up to an
+orthogonal change of basis inside that eigenspace.  What reaches the user is `B Bᵀ`-invariant: the span of the basis
+set (equivalently the projector `B Bᵀ`) and the fitted force constants `B c`.  The three theorems below say that
+these quantities are functions of the subspace alone. -/
+section SpanIndependence
+open Matrix
+
+/-- C11.e: two orthonormal bases `B`, `B'` (any numbers of columns `k`, `k'`) of the same subspace define the same
+    orthogonal projector `B Bᵀ = B' B'ᵀ`.  Hence whichever eigenvectors the standard / large eigen path, a re-run or a
+    different batching returned, the projector onto the admissible force-constant space — the only thing about the
+    basis set that downstream quantities depend on — is the same. -/
+theorem basis_projector_depends_only_on_the_span {K : Type*} [Field K] {m k k' : Type*}
+    [Fintype m] [Fintype k] [Fintype k'] [DecidableEq k] [DecidableEq k']
+    (B : Matrix m k K) (B' : Matrix m k' K) (hB : Bᵀ * B = 1) (hB' : B'ᵀ * B' = 1)
+    (hrange : ∀ x : m → K, (∃ c : k → K, x = B *ᵥ c) ↔ (∃ c' : k' → K, x = B' *ᵥ c')) :
+    B * Bᵀ = B' * B'ᵀ :=
+  SpanIndep.same_range_same_projector B B' hB hB' hrange
+
+/-- C11.e: the fitted force constants `B c` (c any solution of the normal equations of the compressed design matrix
+    `X B`) are the same for every orthonormal basis of the admissible space: the coefficient vectors `c`, `c'` differ
+    (by the orthogonal change of basis) but the user-visible force constants do not.  Injectivity of `X B` is assumed
+    for ONE basis only; for the other it follows (`SpanIndep.injective_transfers`). -/
+theorem fitted_force_constants_depend_only_on_the_span {K : Type*} [Field K] [LinearOrder K]
+    [IsStrictOrderedRing K] {m k k' r : Type*} [Fintype m] [Fintype k] [Fintype k'] [Fintype r]
+    [DecidableEq k] [DecidableEq k']
+    (B : Matrix m k K) (B' : Matrix m k' K) (hB : Bᵀ * B = 1) (hB' : B'ᵀ * B' = 1)
+    (hrange : ∀ x : m → K, (∃ c : k → K, x = B *ᵥ c) ↔ (∃ c' : k' → K, x = B' *ᵥ c'))
+    (X : Matrix r m K) (y : r → K) (c : k → K) (c' : k' → K)
+    (hc : ((X * B)ᵀ * (X * B)) *ᵥ c = (X * B)ᵀ *ᵥ y)
+    (hc' : ((X * B')ᵀ * (X * B')) *ᵥ c' = (X * B')ᵀ *ᵥ y)
+    (hinj : Function.Injective (X * B).mulVec) :
+    B *ᵥ c = B' *ᵥ c' :=
+  SpanIndep.fit_depends_only_on_the_span B B' hB hB' hrange X y c c' hc hc' hinj
+
+/-- C11.e: (i) any two results `W`, `W'` of an eigen-solver path that satisfy the eigen contract `Pipeline.EigBasis M ·`
+    (orthonormal columns spanning exactly the eigenvalue-1 eigenspace of `M`) for the same matrix `M` give the same
+    projector `W Wᵀ = W' W'ᵀ`; (ii) two complete runs of the basis-set pipeline `B = A W₂ W₃` with arbitrary
+    contract-satisfying eigen bases `(W₂, W₃)` resp. `(W₂', W₃')` — note that the second-stage matrix itself depends on
+    the first-stage basis — give the same projector `B Bᵀ = B' B'ᵀ`.  So the standard path, the large (block-divided)
+    path, re-runs and different batchings are indistinguishable through `B Bᵀ`. -/
+theorem either_eigen_path_gives_the_same_projector {K : Type*} [Field K] [LinearOrder K]
+    [IsStrictOrderedRing K] :
+    (∀ {k k' k'' : Type*} [Fintype k] [Fintype k'] [Fintype k''] [DecidableEq k'] [DecidableEq k'']
+      (M : Matrix k k K) (W : Matrix k k' K) (W' : Matrix k k'' K),
+      Pipeline.EigBasis M W → Pipeline.EigBasis M W' → W * Wᵀ = W' * W'ᵀ) ∧
+    (∀ {m k₁ k₂ k₃ k₂' k₃' r : Type*} [Fintype m] [Fintype k₁] [Fintype k₂] [Fintype k₃] [Fintype k₂']
+      [Fintype k₃'] [Fintype r] [DecidableEq m] [DecidableEq k₁] [DecidableEq k₂] [DecidableEq k₃]
+      [DecidableEq k₂'] [DecidableEq k₃']
+      (A : Matrix m k₁ K) (P : Matrix m m K) (T : Matrix r m K) (ν : K)
+      (W₂ : Matrix k₁ k₂ K) (W₃ : Matrix k₂ k₃ K) (W₂' : Matrix k₁ k₂' K) (W₃' : Matrix k₂' k₃' K),
+      Aᵀ * A = 1 →
+      Pipeline.EigBasis (Aᵀ * P * A) W₂ → Pipeline.EigBasis (Pipeline.sumruleProj (A * W₂) T ν) W₃ →
+      Pipeline.EigBasis (Aᵀ * P * A) W₂' → Pipeline.EigBasis (Pipeline.sumruleProj (A * W₂') T ν) W₃' →
+      Pᵀ = P → P * P = P → 0 < ν →
+      (A * W₂ * W₃) * (A * W₂ * W₃)ᵀ = (A * W₂' * W₃') * (A * W₂' * W₃')ᵀ) :=
+  ⟨fun M W W' h h' => SpanIndep.eigen_paths_agree M W W' h h',
+   fun A P T ν W₂ W₃ W₂' W₃' hA h₂ h₃ h₂' h₃' hPs hPi hν =>
+     SpanIndep.pipeline_paths_agree A P T ν W₂ W₃ W₂' W₃' hA h₂ h₃ h₂' h₃' hPs hPi hν⟩
+
+end SpanIndependence
 
 end Symfc.C11
